@@ -33,7 +33,10 @@ impl WalRecuperator {
 
     /// Runs the recovery
     pub(crate) fn run_recovery(&mut self, analysis: &AnalysisResult) -> RuntimeResult<()> {
-        self.run_undo(&analysis)?;
+        // Unfinished transactions are rolled back the way ROLLBACK does it: the caller marks
+        // them aborted, which hides whatever they wrote. Applying their inverse operations
+        // here would act on pages that may never have received the original ones (undoing a
+        // DROP that only exists in the log would create the table).
         self.run_redo(&analysis)?;
 
         Ok(())
